@@ -4,7 +4,7 @@
 From Coq Require Import ZArith Bool List Sorting.Sorted Permutation.
 Import ListNotations.
 From Verif Require Import Model.Val Gen.Src_Greedy Model.Greedy Proofs.GreedyP Proofs.GreedyP2 Proofs.GreedyP3.
-From Verif Require Import Model.Res Model.Worker Proofs.ResP Proofs.WorkerP Proofs.GreedyP4.
+From Verif Require Import Model.Res Model.Worker Proofs.ResP Proofs.WorkerP Proofs.GreedyP4 Proofs.GreedyP5.
 Open Scope Z_scope.
 
 (* the sort keys translated from the source are the documented priorities: earliest deadline (then graph
@@ -142,6 +142,28 @@ Theorem C13_example_worker_model :
   schedule WL edf false false 0 wl_cluster wl_tasks = Ok [DPlace 0 0 0%nat 0; DUnplaced 1; DPlace 2 0 0%nat 0].
 Proof. split; [apply wl_hyps|]. split; [apply wl_hyps|exact wl_run]. Qed.
 Print Assumptions C13_example_worker_model.
+
+(* the monitor applied to the implementation's decisions (pools with one worker each): decidable form <-> Prop.
+   "every task reported unplaced fits nowhere in the cluster obtained by accounting for exactly the placed
+   tasks, other than itself, whose DOCUMENTED key is <= its own" *)
+Theorem C13_monitor : forall L dkey ts v ds,
+  c13_check L dkey ts v ds = true <->
+  (forall t, In (DUnplaced t) ds ->
+     exists x vx, find_task L ts t = Some x /\
+       account L ts v ds (fun y => negb (t_id y =? t) && lex_leb (dkey (t_attrs y)) (dkey (t_attrs x))) = Some vx /\
+       forall s p w, In s (t_strats x) -> In p vx -> In w (snd p) -> can L w s = false).
+Proof. exact c13_check_iff. Qed.
+Print Assumptions C13_monitor.
+(* ... and the model's own decisions always pass it (so an implementation that agrees with the model on an
+   input can never be flagged on that input): on single-worker pools placements commute, accounting for a
+   super-sequence of the placements made before x leaves x unfit *)
+Theorem C13_monitor_sound : forall code e pre now (c : cluster SL) offered ds,
+  code = 0 \/ code = 1 \/ code = 2 ->
+  NoDup (map (@t_id SL) offered) -> NoDup (map fst c) -> s_cok c -> s_tasks_ok offered ->
+  schedule SL (policy_of_code code) e pre now c offered = Ok ds ->
+  mon_c13 (mkGO (mkGI code e pre now c offered) ds) = true.
+Proof. exact mon_c13_model. Qed.
+Print Assumptions C13_monitor_sound.
 
 (* a closed witness with a tie: deadlines A=10 < B=12 = C=12 (C before B in the input, so before B in the
    order), two CPUs; A and C take one CPU each, B (2 CPUs) is unplaced: the placed tasks have priority higher
